@@ -160,6 +160,14 @@ Definition chk_hybrid_dep (e : leff) (seq_then_hyb : bool) (tree_in : bool) : M 
     end
   end.
 
+(* would chk_hybrid_dep wrap this effect into a Sequence with pending hybrids? (the result is then no longer an Assignment object) *)
+Definition hyb_wrapped (e : leff) : M bool :=
+  do s <- get;
+  ret (match st_pending s with
+       | [] => false
+       | _ => match fst (collect_deps (le_tmps e) (st_pending s)) with [] => false | _ => true end
+       end).
+
 (* Sequence(name, items): effects (minus Empty) are sequenced; everything else only contributes leaves *)
 Definition mk_sequence (items : list item) : leff * bool :=
   let effs := flat_map (fun i => match i with IEff e | IVoid e | IAsg e _ => if le_empty e then [] else [le_term e] | _ => [] end) items in
@@ -683,14 +691,15 @@ Definition has_tree (l : list item) : bool := existsb (fun i => match i with ITr
                      | _ => if fx_compound_conv fx then (do eq <- ty_eq (pv_ty dest') (pv_ty src0); if eq then ret src0 else init_a_cast (pv_ty dest') src0) else ret src0
                      end);
         do asg <- mk_assign dest' src'';
+        do w <- hyb_wrapped asg;
         do r <- chk_hybrid_dep asg false false;
         match chained with
-        | None => ret (IAsg r src'')
+        | None => if w then ret (IEff r) else ret (IAsg r src'')
         | Some inner =>
             let '(sq, _) := mk_sequence [IEff r; IEff inner] in
             do _ <- touch;
             do r2 <- chk_hybrid_dep sq false false;
-            ret (IAsg r2 src'')
+            ret (IEff r2)      (* a Sequence, not an Assignment: a further chain member / an operator applied to it raises *)
         end
     | EPost inc a =>
         do ia <- lower_expr a;
